@@ -2,7 +2,7 @@
    case (0 (op ...))      -> ((obs_1 ... obs_n) ((bits_1 reason_1) ... (bits_n reason_n)))
         obs_i = observation after the i-th operation, bits_i = check_obs + post_bits on the model's own
         observation, reason_i = why_not (state before op_i) op_i
-   case (1 op before after) -> (bits) the same spec evaluated on observations produced by the implementation
+   case (1 grid op before after) -> (bits) the same spec evaluated on observations produced by the implementation
         (before = observation preceding the operation, for the frame condition)
    Operation encoding: (code args...); names = lists of character codes; value = integer or () for NA;
    locator type = -1 (UNKNOWN) or 0..28. *)
@@ -112,7 +112,13 @@ Definition asOp (s : sx) : option op :=
       match asListOf asNat ranks, asName nm, asZ cmb with Some a, Some b, Some c => Some (AddSelRanks a b c) | _, _, _ => None end
   | L [I 40%Z; tv; hl; lo; hi; nm; cmb] =>
       match asName tv, asB hl, asVal lo, asVal hi, asName nm, asZ cmb with
-      | Some a, Some b, Some c, Some d, Some e, Some f => Some (AddSelLimit a b c d e f) | _, _, _, _, _, _ => None end
+      | Some a, Some b, Some c, Some d, Some e, Some f =>
+          (* an interval with lower >= upper bound makes the Limits constructor throw *)
+          match c, d with
+          | Some lo', Some hi' => if (lo' <? hi')%Z then Some (AddSelLimit a b c d e f) else None
+          | _, _ => Some (AddSelLimit a b c d e f)
+          end
+      | _, _, _, _, _, _ => None end
   | _ => None
   end.
 
@@ -163,6 +169,15 @@ Definition asCmd (s : sx) : option cmd :=
              && forallb (fun p => (fst (fst p) <? snd (fst p)) && (snd (fst p) <=? snd p)) (combine d a)
           then Some (SubGrid a b c d e) else None
       | _, _, _, _, _ => None end
+  | L [I 55%Z; rf; nx; dx; x0; nm; cell; rank] =>
+      match asB rf, asListOf asNat nx, asListOf asZ dx, asListOf asZ x0, asListOf asNat nm, asB cell, asB rank with
+      | Some a, Some b, Some c, Some d, Some e, Some f, Some g =>
+          (* refinement by 1 or 2 only (exact binary coordinates); coarsening must leave at least one node *)
+          if pos_list b && (0 <? length b) && Nat.eqb (length c) (length b) && Nat.eqb (length d) (length b)
+             && Nat.eqb (length e) (length b) && pos_list e
+             && forallb (fun p => if a then snd p <=? 2 else (if f then snd p <=? fst p else true)) (combine b e)
+          then Some (Migrate a b c d e f g) else None
+      | _, _, _, _, _, _, _ => None end
   | _ => option_map Do (asOp s)
   end.
 
@@ -207,11 +222,16 @@ Definition asObs (s : sx) : option obs :=
   | _ => None
   end.
 
-(* spec on observations: invariant clauses + selection clause, and for an editor its role post-condition and the
+(* spec on observations: invariant clauses, and for an editor its role post-condition and the
    frame condition w.r.t. the observation before the call (a creator returns a new Db: no frame) *)
-Definition spec_bits (c : cmd) (before ob : obs) : Z :=
-  (check_obs ob + bit (chk_selcols ob) 1024
-   + match c with Do o => post_bits o ob + frame_bits o before ob | _ => 0 end)%Z.
+Definition spec_bits (grid : bool) (c : cmd) (before ob : obs) : Z :=
+  (check_obs ob
+   + match c with
+     | Do o => if grid && is_sample_edit o then frame_bits (ClearLoc 0) before ob   (* refused on a DbGrid: nothing may change *)
+               else post_bits o ob + frame_bits o before ob
+     | SubGrid _ _ _ _ _ | Migrate _ _ _ _ _ _ _ => if grid then 0 else frame_bits (ClearLoc 0) before ob
+     | _ => 0
+     end)%Z.
 
 Fixpoint run_hist (g : gstate) (cs : list cmd) (accO accF : list sx) : sx :=
   match cs with
@@ -219,7 +239,7 @@ Fixpoint run_hist (g : gstate) (cs : list cmd) (accO accF : list sx) : sx :=
   | c :: r =>
       let g' := exec g c in
       let ob := observe (snd g') in
-      run_hist g' r (ofObs ob :: accO) (L [I (spec_bits c (observe (snd g)) ob); I (why_not_cmd g c)] :: accF)
+      run_hist g' r (ofObs ob :: accO) (L [I (spec_bits (fst g) c (observe (snd g)) ob); I (why_not_cmd g c)] :: accF)
   end.
 
 Definition run (c : sx) : sx :=
@@ -229,10 +249,10 @@ Definition run (c : sx) : sx :=
       | Some l => run_hist (false, init) l [] []
       | None => sx_error 1
       end
-  | L [I 1%Z; o; b; ob] =>
-      match asCmd o, asObs b, asObs ob with
-      | Some o', Some b', Some ob' => L [I (spec_bits o' b' ob')]
-      | _, _, _ => sx_error 2
+  | L [I 1%Z; g; o; b; ob] =>
+      match asB g, asCmd o, asObs b, asObs ob with
+      | Some g', Some o', Some b', Some ob' => L [I (spec_bits g' o' b' ob')]
+      | _, _, _, _ => sx_error 2
       end
   | _ => sx_error 0
   end.
